@@ -1,6 +1,7 @@
 """Source of truth for MANIFEST.json (tools/gen_manifest.py)."""
 HOOK_COMMITS = []
 ENGINES = [
+    {"name": "E3-world", "path": "vf/engines/world.py", "serves_properties": ["C01", "C02", "C03", "C15", "C16", "C17"], "kind_free_text": "real LLMRails in a scripted closed environment (scripted LLM, fake embeddings, stub actions); conversation BFS"},
     {"name": "E4-parser", "path": "vf/props/c13.py", "serves_properties": ["C13"], "kind_free_text": "layout-edit and mutation enumerators over the real Colang parsers and RailsConfig.from_path"},
     {"name": "E4-streaming", "path": "vf/props/c18.py", "serves_properties": ["C18"], "kind_free_text": "explicit-state search over StreamingHandler states, one transition per chunk"},
     {"name": "E4-server", "path": "vf/props/c20.py", "serves_properties": ["C20"], "kind_free_text": "token-string enumerator + request-sequence BFS against the real FastAPI app"},
@@ -77,5 +78,18 @@ CHECKS["C13"] = {
     "technique": "exhaustive enumeration: every layout edit at every admissible line of every seed (generated programs + shipped .co files), every 1-character mutation / truncation of small seeds, all token strings up to k tokens, each loaded through the real parser / RailsConfig.from_path",
     "text": "Layout: blank line, whitespace-only line, trailing spaces, trailing tab and (2.x) end-of-line comment at every admissible position singly and all at once, indentation x2 and x3, on ~320 generated programs and the shipped .co files (quick: files <= 40 lines, thorough: all 210); parsed flows must be equal modulo source positions. Errors: every prefix, deletion, duplication and substitution from 13 characters at every offset of 12 small seeds per version, all token strings of <=3 (quick) / <=4 (thorough) tokens over 26 tokens; each loaded with RailsConfig.from_path under a CPU screen + 10 s wall alarm: success or ColangParsingError naming the file, nothing else, no hang.",
     "note": "Trusted: admissible-position rules (no edits inside multi-line strings / bracket continuations; full-line comments are statements in 2.x), comparison of `flows` only for 1.0; \\r not in the alphabet.",
+}
+_E3_NOTE = "Trusted: the scripted environment (ScriptedLLM, fake embedding engine registered through the library's provider registry, stub rail/dialog actions), rail flows written in the shape of the shipped self-check rails; real LLMRails.generate_async is driven. Rails beyond 3, conversations beyond the turn bound and provider failures are not covered."
+CHECKS["C01"] = {
+    "engine": "E3-world", "level": "exploration",
+    "technique": "exhaustive enumeration of rail orders x verdict vectors x dialog paths x turns on a real LLMRails instance in a scripted environment; oracle = fold over the verdict script against the ordered log of rail invocations and LLM calls",
+    "text": "Worlds {Colang 1.0, 2.x guardrails library} x dialog on/off x rail exceptions on/off x ordered input-rail selections (quick: <=2 rails reduced, thorough: all <=3); BFS over 2 (3 in thorough for <=2 rails) turns with every effective accept/reject/rewrite vector and dialog path per turn and a hostile text in turn 1: rails invoked in order on the current text, nothing after a reject, reply = refusal / rail exception, no LLM call before the last rail or after a reject, pre-rewrite text in no prompt of this or later turns.",
+    "note": _E3_NOTE,
+}
+CHECKS["C02"] = {
+    "engine": "E3-world", "level": "exploration",
+    "technique": "exhaustive enumeration of output-rail orders x verdict vectors x message kinds x turns on a real LLMRails instance in a scripted environment; per-turn reference fold that is reset every turn",
+    "text": "Same world product for output rails; per turn the bot message is LLM generated or predefined and every effective accept/reject/rewrite(v1) vector is applied: rails invoked in order on the current text, rejected text never in the response, rewritten text returned; every sequence of turns up to the bound, so each block/rewrite in turn k is followed by fully checked turns (counted as turns_after_a_block_or_rewrite).",
+    "note": _E3_NOTE,
 }
 NOT_APPLICABLE = {}
